@@ -228,10 +228,41 @@ def cli_requires(w):
     return False
 
 
+def evaluate_pipeline(chk, w, b, cf):
+    """the evaluation tool must measure the library pipeline: predict, then the post-filters, then fill_tags (tags are
+    predicted for the tokens that the filters leave), all on the same sentence"""
+    pred = [bb for bb, t in cfgmod.calls(b) if cfgmod.callee(t) == C.P + "::predict"]
+    fill = [bb for bb, t in cfgmod.calls(b) if cfgmod.callee(t) == C.S + "::fill_tags"]
+    filt = []
+    for bb, t in cfgmod.calls(b):
+        c = cfgmod.callee(t) or ""
+        if c.endswith("Iterator>::for_each") or c.endswith("SentenceFilter>::filter") or c.endswith("SentenceFilter::filter"):
+            # the closure / call applies a SentenceFilter
+            z = " ".join(str(a["const"].get("zst", "")) for a in t["args"] if "const" in a)
+            cl = [k for k in w.bodies if k.startswith(b.fn + "::{closure") and "#promoted" not in k]
+            applies = c.endswith("filter") or any(any((cfgmod.callee(t2) or "").endswith("SentenceFilter>::filter") or "SentenceFilter" in (cfgmod.callee(t2) or "") for _, t2 in cfgmod.calls(w.bodies[k][0])) for k in cl)
+            if applies:
+                filt.append(bb)
+    chk.floor("R20.3", "evaluate pipeline calls", len(pred) + len(filt) + len(fill), 3)
+    ok = len(pred) == 1 and len(filt) >= 1 and len(fill) >= 1
+    if ok:
+        ok = all(cf.dominates(pred[0], f) for f in filt) and all(any(cf.dominates(f, g) for f in filt) for g in fill)
+        # no filter application is reachable after fill_tags within the same iteration (i.e. without passing predict again)
+        for g in fill:
+            later = cf.reachable(g, avoid=set(pred)) - {g}
+            if any(f in later for f in filt):
+                ok = False
+    chk.ob("R20.3", "evaluate:pipeline-order", ok,
+           "evaluate::main calls predict at %s, applies the post-filters at %s and fill_tags at %s; specification: predict, then every post-filter, then fill_tags "
+           "(as the predict tool and the library do), otherwise the measured tags belong to a tokenisation the filters have since changed" % (pred, filt, fill), site=C.site(b, fill[0] if fill else None),
+           sample={"predict": pred, "filters": filt, "fill_tags": fill})
+
+
 def evaluate_rules(chk, w):
     b = C.body(w, "evaluate::main", crate="evaluate")
     chk.fn("evaluate::main")
     cf = cfgmod.cfg_of(b)
+    evaluate_pipeline(chk, w, b, cf)
     loops = cf.natural_loops()
     names = b.names()
     it = absint.Interp(w, b, models=effects.EXTRA_MODELS, summaries=C.summaries(w))
